@@ -489,7 +489,8 @@ def _install_repo_names():
         skip_t = skip.t if isinstance(skip, SBool) else z3.BoolVal(bool(skip))
         return SStr(pyident(I.to_str_term(I.py_str(value)), I.to_str_term(I.py_str(prefix)), skip_t))
 
-    for fname in ("snake_case", "pascal_case", "kebab_case", "sanitize", "remove_string_escapes", "fix_reserved_words"):
+    # (remove_string_escapes is NOT summarised here: its source is a str.replace the engine interprets with its facts)
+    for fname in ("snake_case", "pascal_case", "kebab_case", "sanitize", "fix_reserved_words"):
         f = z3.Function(fname, S, S)
 
         def _m(I, args, kwargs, f=f):
